@@ -73,6 +73,22 @@ var (
 	}
 )
 
+// replayDir / evidenceDir: /verif/replays and /verif/evidence unless redirected
+// (development: checks run against a scratch copy must not overwrite them).
+func replayDir() string {
+	if v := os.Getenv("VERIF_REPLAY_DIR"); v != "" {
+		return v
+	}
+	return filepath.Join(verifDir, "replays")
+}
+
+func evidenceDir() string {
+	if v := os.Getenv("VERIF_EVIDENCE_DIR"); v != "" {
+		return v
+	}
+	return filepath.Join(verifDir, "evidence")
+}
+
 func workerPath() string {
 	if spec.Race {
 		return filepath.Join(buildDir, "simworker-race")
@@ -292,6 +308,12 @@ func runBatch(total int, nworkers int, deadline time.Time, agg *aggregate) {
 			for next < total && time.Now().Before(deadline) {
 				wk := startWorker()
 				count := (total - next + nworkers - 1) / nworkers
+				limited := false
+				if spec.RestartEvery > 0 && count > spec.RestartEvery {
+					// fresh processes at intervals: process-wide lazy initialisation
+					// (parser tables, package-level caches) is then cold again
+					count, limited = spec.RestartEvery, true
+				}
 				wk.send(&Cmd{Cmd: "range", Prop: prop, Tier: tier, Seed: seed, Start: next, Stride: nworkers, Count: count,
 					SampleLT: 3, WatchdogMs: spec.WatchdogMs(tier), DeadlineUnix: deadline.Unix()})
 				wk.stdin.Close()
@@ -308,7 +330,9 @@ func runBatch(total int, nworkers int, deadline time.Time, agg *aggregate) {
 						next = res.Run + nworkers
 						cur = -1
 					case "E":
-						next = total
+						if !limited {
+							next = total
+						}
 						finished = true
 					case "X":
 						status, stderr := wk.waitExit()
@@ -669,7 +693,7 @@ type replayFile struct {
 }
 
 func writeReplay(v violation, min []uint64, res *RunResult, tried int) string {
-	os.MkdirAll(filepath.Join(verifDir, "replays"), 0o755)
+	os.MkdirAll(replayDir(), 0o755)
 	var rf replayFile
 	rf.Property, rf.Seed, rf.Run, rf.Tier, rf.Tape = prop, seed, v.Run, tier, min
 	rf.Scenario = res.Scenario
@@ -677,7 +701,7 @@ func writeReplay(v violation, min []uint64, res *RunResult, tried int) string {
 	rf.Minimised.FromLen, rf.Minimised.ToLen, rf.Minimised.Candidates = len(v.Tape), len(min), tried
 	h := fnvHash(fmt.Sprint(res.Class, res.Locator))
 	name := fmt.Sprintf("%s-%s-%08x.json", prop, res.Class, uint32(h))
-	path := filepath.Join(verifDir, "replays", name)
+	path := filepath.Join(replayDir(), name)
 	b, _ := json.MarshalIndent(&rf, "", " ")
 	if err := os.WriteFile(path, b, 0o644); err != nil {
 		infraFail("cannot write replay file: %v", err)
@@ -773,7 +797,7 @@ func main() {
 		nworkers = total
 	}
 	// replay files of earlier runs of this property are stale from here on
-	if old, _ := filepath.Glob(filepath.Join(verifDir, "replays", prop+"-*.json")); len(old) > 0 {
+	if old, _ := filepath.Glob(filepath.Join(replayDir(), prop+"-*.json")); len(old) > 0 {
 		for _, f := range old {
 			os.Remove(f)
 		}
